@@ -457,7 +457,8 @@ class Explorer:
         else:
             g = as_z3bool(goal)
         formulas = list(facts_pc) + [z3.Not(g)]
-        ax, _ = theory.instantiate(formulas)
+        _o = self.current.opts if self.current is not None else {}
+        ax, _ = theory.instantiate(formulas, rounds=_o.get('theory_rounds', 2), heavy=_o.get('theory_heavy', True))
         s = z3.Solver()
         s.set('timeout', timeout_ms or self.timeout_ms)
         for f in formulas:
